@@ -35,11 +35,26 @@ AffineOK(e) ==
                        /\ Len(e.ptsi) = Len(e.pts)
                        /\ \A q \in 1..Len(e.ptsi) : SameSeq(e.ptsi[q], e.xi))
 
+\* op = "jac_quad": f_i = s_i x_{p_i}^2 (s_i = +-1) on dyadic data with exact squares: entry (i, j) is EXACTLY s_i (2 x_j + delta) for
+\* j = p_i and 0 for every other j; points and result in units of 2^-xs.  Complex: the quotient of z^2 is 2 z + delta (delta real).
+QuadOK(e) ==
+    /\ ~e.panic
+    /\ ShapeOK(e, e.jac) /\ Len(e.x) = e.n /\ Len(e.p) = e.m /\ Len(e.s) = e.m /\ J!PointsExplained(e.pts, e.x, e.dsc)
+    /\ \A i \in 0..(e.m - 1) : \A j \in 0..(e.n - 1) :
+           At(e.jac, i, j) = IF j = e.p[i + 1] THEN e.s[i + 1] * J!QuadQuot(e.x[j + 1], e.dsc) ELSE 0
+    /\ (e.ty = "cx" => /\ ShapeOK(e, e.jaci) /\ Len(e.ptsi) = Len(e.pts)
+                       /\ \A q \in 1..Len(e.ptsi) : SameSeq(e.ptsi[q], e.xi)
+                       /\ \A i \in 0..(e.m - 1) : \A j \in 0..(e.n - 1) :
+                              At(e.jaci, i, j) = IF j = e.p[i + 1] THEN e.s[i + 1] * 2 * e.xi[j + 1] ELSE 0)
+
+\* op = "jac_sq": the same maps at general points / steps (delta = 1e-8): units = |J_ij - Q*_ij| / (4 eps |f| / delta) (complex: 12 eps |f| / delta) against the exact
+\* forward quotient Q* of the evaluated points computed in double-double (entries of other variables: 8 eps |f| / delta); same discipline fields
 SmoothOK(e) == ~e.panic /\ e.r = e.m /\ e.c = e.n /\ e.cover /\ e.far <= 1 /\ e.dunits <= 1 /\ e.units <= 1
 
 Explained(e) ==
   CASE e.op = "jac_affine" -> AffineOK(e)
-    [] e.op = "jac_smooth" -> SmoothOK(e)
+    [] e.op = "jac_quad" -> QuadOK(e)
+    [] e.op \in {"jac_smooth", "jac_sq"} -> SmoothOK(e)
     [] OTHER -> FALSE
 
 Init == l = 1 /\ TLCSet(1, 0)
